@@ -52,12 +52,14 @@ S2 == Sx(1000, 30, [A |-> 2000000000, B |-> 2000000000, ORC |-> 100000000, S |->
 B2 == << Bk("vote", "", 2), Bk("answer", "", 1), Bk("onodes", "", 2), Bk("nnodes", "", 2), Inc(<<1>>), Bk("conflict", "A", 1),
          Bk("conflict", "S", 1), Bk("afee", "conflicts", 50000), Bk("none", "", 0) >>
 
-\* ---- U3: contract-based witnesses, balances, NotValidBefore
+\* ---- U3: contract-based witnesses, balances, NotValidBefore, a transaction paid from a notary deposit
 T3 == << [Tx(1, <<"A", "K">>, 6, 400, 5000000, 100000, SigK + 40000) EXCEPT !.std = FALSE, !.wc = "K", !.wv = {1}],
          [Tx(2, <<"K">>, 4, 300, 5000000, 100000, 40000) EXCEPT !.std = FALSE, !.wc = "K", !.wv = {1}],
          Tx(3, <<"A">>, 4, 300, Tight(300, 1000, 30, SigK) + 100000, 3000000, SigK),
-         [Tx(4, <<"A">>, 4, 310, Tight(310, 1000, 30, SigK) + 50000, 100000, SigK) EXCEPT !.nvb = 2, !.amult = [NoAm EXCEPT !.nvb = 1]] >>
-S3 == Sx(1000, 30, [A |-> 12000000, K |-> 2000000000], {})
+         [Tx(4, <<"A">>, 4, 310, Tight(310, 1000, 30, SigK) + 50000, 100000, SigK) EXCEPT !.nvb = 2, !.amult = [NoAm EXCEPT !.nvb = 1]],
+         [Tx(5, <<"DEPA", "A">>, 6, 400, 40000000, 100000, SigK + 40000) EXCEPT !.std = FALSE, !.nn = 1,
+             !.amult = [NoAm EXCEPT !.notary = 2]] >>
+S3 == Sx(1000, 30, [A |-> 12000000, K |-> 2000000000, DEPA |-> 60000000], {})
 B3 == << Bk("cver", "K", 2), Bk("cver", "K", 1), Bk("cver", "K", 3), Bk("cver", "K", 0), Bk("drain", "A", 6000000), Inc(<<3>>),
-         Bk("none", "", 0), Bk("none", "", 0) >>
+         Bk("none", "", 0), Bk("withdraw", "DEPA", 0) >>
 =============================================================================
